@@ -2,3 +2,7 @@ CLAIMS["C16"] = {
     "text": "Bounded model checking of src/crc-16-arc.c: the update step is decided for all 2^24 (state, octet) pairs (this pins all 256 table entries); buffer, concatenation and 16-bit-word variants are decided for every content, initial value and split point up to the stated length (quick 4 octets / 4 words, thorough 10 / 8). Longer buffers follow from step + loop structure by induction, which is argued, not machine-checked.",
     "note": "Trusted: CBMC + SAT back end, the 10-line bit-serial reference CRC in the harness, little-endian 8-bit-byte configuration. Loop bounds are enforced by unwinding assertions.",
 }
+CLAIMS["C18"] = {
+    "text": "One-step inductive bounded model checking of src/byte-buffer.c: from every state satisfying offset <= used <= size (size 1..4 quick / 1..8 thorough, arbitrary contents and canaries) one arbitrary operation with an arbitrary exact-size operand (length 0..size+1) is executed symbolically and compared with a list model; invariant, FIFO content, refusal-without-change and frame conditions are asserted. Arbitrary pre-state means the verdict covers operation histories of any length for these sizes.",
+    "note": "Trusted: CBMC + SAT, byte-loop memcpy/memmove/memset models, the list model in the harness. Sizes above the bound are outside the claim.",
+}
